@@ -129,3 +129,12 @@ REGISTRY.update({
     "C28": _mc("explicit-state enumeration of multi-locus inputs x missing-data patterns x every subset of site-bearing loci x option product; genotype / clade-per-position / removed-region / simplification / contiguity oracles",
                "Every bounded multi-locus ARG (coordinates x10, thorough also x2^20) x every non-empty subset of loci carrying sites x (minimum_gap x erase_flanks | delete_intervals as list or ndarray) x split_disjoint x filter_sites, plus every (sample, locus) isolation: kept sites, samples, genotypes and node times preserved; local trees identical outside and empty inside exactly the specified intervals; output already simplified; no gapped ancestry with split_disjoint."),
 })
+
+REGISTRY.update({
+    "C32": _mc("complete product of 7x7 node/mutation metadata-table states x set_metadata x methods; decision-table oracle with an independent encode/decode probe for 'schema can encode mn/vr'",
+               "4 inputs x 49 combinations of table states (no schema, permissive JSON, closed JSON, mn typed string, struct with / without mn,vr, raw bytes) x set_metadata {None,True,False} x 3 methods: untouched / extended-with-other-fields-kept / cleared-and-default-schema exactly as the policy says, a warning whenever a table is skipped, every row carries mn and vr whenever anything is written."),
+    "C33": _mc("enumeration of call variants x earlier-record counts x record_provenance, and ALL call chains of length <=3 over four operations; record-count, byte-identity, schema-validation and parameter-echo oracles",
+               "3 inputs x {0,1,3} earlier provenance rows x 10 call variants (date with each method, the named methods, preprocess_ts; default and non-default parameters) x record_provenance {None,True,False}, plus all 84 chains of up to three operations: exactly one valid new record per recorded call naming the command and every parameter used, earlier rows byte-identical, nothing added when recording is off."),
+    "C34": _mc("complete option product (3 x 2^11 `date` argvs, 56 `preprocess` argvs) executed in-process through cli.tsdate_main with a recording wrapper around the API entry points; expected validity derived from the API contracts",
+               "Every presence/absence combination of the 11 `date` options for each method, and every combination of preprocess options incl. boolean values True/False/0 and the --trim_telomeres alias: each given option reaches the API with the value given, the file written equals the API result, and invalid combinations end with a non-zero exit and no output file."),
+})
